@@ -20,7 +20,7 @@ from ..core import terms as T
 from ..core.loader import unparse, AnalysisError
 from ..rules import workers as W
 from ..rules.effects import PathAnalysis
-from .C05 import check_tiles, check_cursor_use, check_signs, check_dispatch
+from .C05 import check_unsort, check_tiles, check_cursor_use, check_signs, check_dispatch
 from .C19 import _loop_fresh, _enclosing_loop
 
 ID = 'C13'
@@ -47,6 +47,10 @@ EXPLANATION += (
     'anchored modules.'
 )
 
+EXPLANATION += (
+    ' Round 5: a sorted row request is un-sorted before every return (R-PERM/unsort-before-return).'
+)
+
 RULE_TEXT = (
     "one obligation per step / chunk-extent site, per range relation of "
     "the dispatch loop, per piece-list mutation, per dispatcher x member")
@@ -71,6 +75,7 @@ def check(ctx):
     check_parallel_pieces(ctx)
     check_cursor_use(ctx, ANCHOR_MODULES, floor=6)
     check_index_spaces(ctx)
+    check_unsort(ctx)
     check_tiles(ctx, ANCHOR_MODULES, floor=8)
     from .C05 import sweep_generic_rules
     sweep_generic_rules(ctx, ANCHOR_MODULES)
